@@ -67,3 +67,119 @@ Proof.
   all: repeat split; auto.
   all: try (match goal with Hn : t_native _ = _ |- _ => rewrite Hn end; auto).
 Qed.
+
+(* ---------- C11: the engine side of a settlement ---------- *)
+Definition funding_msgs (w : world) (fp : Z) : list submsg :=
+  if fp <? 0 then [execute_insurance_fund_withdrawal w (- fp)]
+  else if 0 <? fp then [execute_transfer (e_ifund (ec (w_eng w))) (Z.min (engine_balance w) fp)]
+  else [].
+
+Lemma cpf_after_set e vamm m : cumulative_premium_fraction (eng_set_vmap e vamm m) vamm =
+  match vm_cpf m with [] => szero | c :: _ => c end.
+Proof. unfold cumulative_premium_fraction, read_vmap, eng_set_vmap; cbn [e_vmap]. rewrite zfind_zset_same. reflexivity. Qed.
+
+Lemma pay_funding_reply_spec w pf vamm w' msgs :
+  pay_funding_reply w pf vamm = Ok (w', msgs) ->
+  wf0 pf -> cpf_wf (w_eng w) vamm -> 0 < e_dec (ec (w_eng w)) ->
+  (forall v, get_vamm w vamm = Ok v -> wf0 (v_total (vs v))) ->
+  toZ (cumulative_premium_fraction (w_eng w') vamm) = toZ (cumulative_premium_fraction (w_eng w) vamm) + toZ pf /\
+  wf0 (cumulative_premium_fraction (w_eng w') vamm) /\
+  (exists v, get_vamm w vamm = Ok v /\
+     msgs = funding_msgs w (Z.quot (toZ (v_total (vs v)) * toZ pf) (e_dec (ec (w_eng w))))) /\
+  w_tok w' = w_tok w /\ w_vamms w' = w_vamms w /\ w_if w' = w_if w /\ w_fp w' = w_fp w /\
+  es (w_eng w') = es (w_eng w) /\ ec (w_eng w') = ec (w_eng w) /\ e_pos (w_eng w') = e_pos (w_eng w) /\
+  vm_lrb (read_vmap (w_eng w') vamm) = vm_lrb (read_vmap (w_eng w) vamm).
+Proof.
+  intros H Hpf Hc HD Hv. unfold pay_funding_reply in H.
+  destruct (append_cumulative_premium_fraction (w_eng w) vamm pf) as [e1|] eqn:Ea; [|discriminate]. cbn [bind] in H.
+  unfold get_vamm in H. cbn [w_vamms set_eng] in H.
+  destruct (zfind vamm (w_vamms w)) as [v|] eqn:Ev; [|discriminate]. cbn [bind] in H.
+  assert (Hvt : wf0 (v_total (vs v))) by (apply Hv; unfold get_vamm; rewrite Ev; reflexivity).
+  destruct (smul (v_total (vs v)) pf) as [m|] eqn:Em; [|discriminate]. cbn [bind] in H.
+  apply smul_toZ0 in Em; auto. destruct Em as (Zm & Wm & _).
+  destruct (sdiv m (spos (e_dec (ec (w_eng w))))) as [fp|] eqn:Ed; [|discriminate]. cbn [bind] in H.
+  apply sdiv_toZ0 in Ed; auto; [|apply spos_wf0; lia]. destruct Ed as (Zf & Wf & Cf). rewrite toZ_spos, Zm in Zf.
+  unfold append_cumulative_premium_fraction in Ea. unfold cpf_wf, cumulative_premium_fraction in Hc.
+  assert (Hcpf : toZ (cumulative_premium_fraction e1 vamm) = toZ (cumulative_premium_fraction (w_eng w) vamm) + toZ pf /\
+                 wf0 (cumulative_premium_fraction e1 vamm) /\
+                 es e1 = es (w_eng w) /\ ec e1 = ec (w_eng w) /\ e_pos e1 = e_pos (w_eng w) /\
+                 vm_lrb (read_vmap e1 vamm) = vm_lrb (read_vmap (w_eng w) vamm)).
+  { unfold cumulative_premium_fraction at 2.
+    destruct (vm_cpf (read_vmap (w_eng w) vamm)) as [|c rest] eqn:El; cbn [bind] in Ea.
+    - inv_ok. rewrite cpf_after_set. cbn [vm_cpf]. change (toZ szero) with 0.
+      repeat split; auto; try lia. unfold read_vmap, eng_set_vmap; cbn [e_vmap]; rewrite zfind_zset_same; reflexivity.
+    - destruct (sadd pf c) as [l|] eqn:Es; [|discriminate]. cbn [bind] in Ea. inv_ok.
+      apply sadd_toZ0 in Es; auto. destruct Es as (Zl & Wl & _).
+      rewrite cpf_after_set. cbn [vm_cpf]. repeat split; auto; try lia.
+      unfold read_vmap, eng_set_vmap; cbn [e_vmap]; rewrite zfind_zset_same; reflexivity. }
+  destruct Hcpf as (Z1 & W1 & Hes & Hec & Hep & Hl).
+  inv_ok. cbn [w_eng set_eng w_tok w_vamms w_if w_fp].
+  repeat split; auto.
+  exists v. split; [unfold get_vamm; rewrite Ev; reflexivity|].
+  unfold funding_msgs.
+  rewrite (s_is_negative_toZ0 fp Wf). rewrite s_is_zero_toZ. rewrite Zf.
+  set (q := Z.quot (toZ (v_total (vs v)) * toZ pf) (e_dec (ec (w_eng w)))) in *.
+  assert (Hsv : sval fp = Z.abs q) by (rewrite (wf0_toZ_abs fp Wf); rewrite Zf; reflexivity).
+  destruct (Z.ltb_spec q 0) as [Hn|Hn].
+  - destruct (Z.eqb_spec q 0); [lia|]. cbn [andb negb].
+    unfold execute_insurance_fund_withdrawal. cbn [w_eng set_eng]. rewrite Hec, Hsv. f_equal. f_equal. f_equal. lia.
+  - cbn [andb]. destruct (Z.ltb_spec 0 q) as [Hp|Hp].
+    + destruct (Z.eqb_spec q 0); [lia|]. unfold s_is_positive. rewrite (s_is_negative_toZ0 fp Wf), Zf. fold q.
+      destruct (Z.ltb_spec q 0); [lia|]. cbn [andb negb].
+      unfold execute_transfer_to_insurance_fund, engine_balance. cbn [w_eng set_eng w_tok]. rewrite Hec, Hsv.
+      f_equal. f_equal. f_equal. destruct (Z.ltb_spec (bal (w_tok w) A_ENGINE) (Z.abs q)); lia.
+    + destruct (Z.eqb_spec q 0); [|lia]. rewrite Bool.andb_false_r. reflexivity.
+Qed.
+
+(* ---------- C11: a trade charges the funding owed once and moves the checkpoint ---------- *)
+Lemma funding_owed_settled w v p : 0 < e_dec (ec (w_eng w)) ->
+  p_lupf p = cumulative_premium_fraction (w_eng w) v -> funding_owed w v p = 0.
+Proof. intros HD E. unfold funding_owed. rewrite E. rewrite Z.sub_diag. rewrite Z.mul_0_l. apply Z.quot_0_l. lia. Qed.
+
+Lemma update_position_reply_funding w i o id w' subs tm :
+  update_position_reply w i o id = Ok (w', subs) -> e_tmp (w_eng w) = Some tm ->
+  let v := ts_vamm tm in let t := ts_trader tm in
+  let p := get_position (w_eng w) (w_env w) v t (ts_side tm) in
+  pos_wf p -> cpf_wf (w_eng w) v -> 0 < e_dec (ec (w_eng w)) ->
+  wf0 (ts_upnl tm) -> 0 <= o -> 0 <= ts_open_notional tm -> 0 < ts_leverage tm ->
+  exists p' delta, find_position (w_eng w') v t = Some p' /\
+    p_lupf p' = cumulative_premium_fraction (w_eng w) v /\
+    p_block p' = height (w_env w) /\
+    p_margin p' = Z.max 0 (delta - funding_owed w v p + p_margin p) /\
+    (id = INCREASE_ID -> delta = ts_open_notional tm * e_dec (ec (w_eng w)) / ts_leverage tm) /\
+    cumulative_premium_fraction (w_eng w') v = cumulative_premium_fraction (w_eng w) v /\
+    funding_owed w' v p' = 0.
+Proof.
+  intros H Htmp v t p Hp Hc HD Hup Ho Hon Hlev.
+  unfold update_position_reply, need_tmp in H. rewrite Htmp in H. cbn [bind] in H.
+  destruct (need_sent w) as [funds|]; [|discriminate]. cbn [bind] in H. cbv zeta in H. fold v t in H. fold p in H.
+  destruct (update_open_interest_notional w (es (w_eng w)) v _ t) as [st1|]; [|discriminate]. cbn [bind] in H.
+  match type of H with bind ?r _ = _ => destruct r as [[[[[sm mtv] md] nd] nn]|] eqn:Er; [|discriminate] end. cbn [bind] in H.
+  assert (Hmd : wf0 md /\ (id = INCREASE_ID -> toZ md = ts_open_notional tm * e_dec (ec (w_eng w)) / ts_leverage tm)).
+  { destruct (Z.eqb_spec id INCREASE_ID) as [Ei|Ei].
+    - minv Er. inv_ok. arith_ok. subst. split; [apply spos_wf0; apply Z.div_pos; nia|]. intros _. rewrite toZ_spos. reflexivity.
+    - split; [|intros; contradiction].
+      destruct (sgtb _ _) in Er; [discriminate|]. cbn [negb bind] in Er.
+      destruct (negb (s_is_zero (p_size p))) eqn:Enz.
+      + destruct (schecked_mul (ts_upnl tm) _) as [m|] eqn:Em; [|discriminate]. cbn [bind] in Er.
+        rewrite schecked_mul_eq in Em. apply smul_toZ0 in Em; auto; [|unfold wf0, sabs; cbn [sval]; destruct (ts_side tm); cbn; lia].
+        destruct Em as (_ & Wm & _).
+        destruct (sdiv m (sabs (p_size p))) as [rp|] eqn:Ed; [|discriminate]. cbn [bind] in Er.
+        apply sdiv_toZ0 in Ed; auto; [|unfold wf0, sabs; cbn [sval]; apply Hp]. destruct Ed as (_ & Wr & _).
+        minv Er; inv_ok; exact Wr.
+      + cbn [bind] in Er. minv Er; inv_ok; unfold wf0; cbn; lia. }
+  destruct Hmd as (Wmd & Hdelta).
+  destruct (calc_remain_margin w v p md) as [[[[fp margin] bad] latest]|] eqn:Erm; [|discriminate]. cbn [bind] in H.
+  apply calc_remain_margin_spec in Erm; auto. destruct Erm as (El & _ & Hr). cbv zeta in Hr. destruct Hr as (Hneg & Hpos & _ & _).
+  destruct (sadd (p_size p) _) as [ns|]; [|discriminate]. cbn [bind] in H.
+  match type of H with context [store_position (w_eng w) v t ?P] => set (p' := P) in * end.
+  assert (Hf : find_position (w_eng w') v t = Some p' /\ cumulative_premium_fraction (w_eng w') v = cumulative_premium_fraction (w_eng w) v /\ ec (w_eng w') = ec (w_eng w)).
+  { arm H; cbn [w_eng set_eng]; rewrite ?find_set_sent, ?find_set_tmp, ?find_set_state; (split; [apply find_store_same|split; reflexivity]). }
+  destruct Hf as (Hf & Hcpf & Hec).
+  exists p', (toZ md). split; [exact Hf|]. subst p'. cbn [p_lupf p_block p_margin].
+  split; [exact El|]. split; [reflexivity|]. split.
+  { destruct (Z_lt_ge_dec (toZ md - funding_owed w v p + p_margin p) 0) as [Hlt|Hge];
+    [destruct (Hneg Hlt) | destruct (Hpos ltac:(lia))]; lia. }
+  split; [exact Hdelta|]. split; [exact Hcpf|].
+  apply funding_owed_settled; [rewrite Hec; exact HD|]. cbn [p_lupf]. rewrite Hcpf. exact El.
+Qed.
